@@ -481,7 +481,13 @@ class _Points:
                 raise Untranslatable('two different centre expressions')
             return [(0, 0), (1, 0)]
         if isinstance(e, (ast.Tuple, ast.List)):
-            return [self._elem(el) for el in e.elts]
+            out = []
+            for el in e.elts:          # `(c[0] - 1, *c[1:])`: a starred element splices a (slice of a) tuple in
+                if isinstance(el, ast.Starred):
+                    out += self._tuple(el.value)
+                else:
+                    out.append(self._elem(el))
+            return out
         if isinstance(e, ast.BinOp) and isinstance(e.op, ast.Add):
             return self._tuple(e.left) + self._tuple(e.right)
         if isinstance(e, ast.Subscript) and isinstance(e.slice, ast.Slice) and e.slice.step is None:
@@ -1176,9 +1182,13 @@ def generate(repo):
     g.item('bandlimited_rms.steps1d', 'prysm/interferogram.py:bandlimited_rms', lambda: get_def(ifm, 'bandlimited_rms'),
            brms_steps_1d, 'def brmsCentre1D (s : Int) : Int := s / 2\ndef brmsStepLag1D : Int := -1')
 
+    _LOCAL_FN_ALIASES = {}
+
     def _rms_callee_ok(f):
         """does the callee expression denote prysm.util.rms inside render_synthetic_surface (where the parameter `rms`
         shadows the module-level name)?  True / False (recognisably something else) / None"""
+        if isinstance(f, ast.Name) and f.id in _LOCAL_FN_ALIASES and f.id != 'rms':
+            return _rms_callee_ok(_LOCAL_FN_ALIASES[f.id])     # `rms_fcn = globals()['rms']` in the same function
         t = ast.unparse(f).replace('"', "'").replace(' ', '')
         if t == "globals()['rms']":
             target = 'rms'
@@ -1213,6 +1223,14 @@ def generate(repo):
         """the statement that rescales z, as an expression over z, the requested `rms` and ZRMS__ (= util.rms(z), wherever that
         call sits: in a local of any name or inline), plus the AST nodes involved -> (expr, scale statement, [rms call nodes])"""
         st = _stmts(fn)
+        _LOCAL_FN_ALIASES.clear()
+        for x in st:      # single-assignment locals bound to a callee expression (a name or globals()['name'])
+            if isinstance(x, ast.Assign) and len(x.targets) == 1 and isinstance(x.targets[0], ast.Name) \
+                    and (isinstance(x.value, ast.Name) or ast.unparse(x.value).replace(' ', '').startswith('globals()[')):
+                nm = x.targets[0].id
+                if sum(1 for y in st if isinstance(y, (ast.Assign, ast.AugAssign)) and nm in
+                       [ast.unparse(t_) for t_ in (y.targets if isinstance(y, ast.Assign) else [y.target])]) == 1:
+                    _LOCAL_FN_ALIASES[nm] = x.value
         aug = [x for x in st if isinstance(x, ast.AugAssign) and ast.unparse(x.target) == 'z'] + \
               [x for x in st if isinstance(x, ast.Assign) and ast.unparse(x.targets[0]) == 'z' and isinstance(x.value, ast.BinOp)
                and 'z' in (ast.unparse(x.value.left), ast.unparse(x.value.right))]
